@@ -10,11 +10,16 @@ from . import _refine
 KINDS = ["H", "D", "T", "M"]
 LEVEL = "exploration"
 COMPONENTS = dict(_refine.COMPONENTS)
+COMPONENTS["real"] = COMPONENTS["real"] + ["hypergraphx.filters.statistical_filters.get_svh (pandas, scipy.stats.binom)"]
+COMPONENTS["stub"] = ["multiprocessing.Pool / cpu_count inside statistical_filters (SimPool: seeded execution order, chunking, worker count)"]
+COMPONENTS["real_smoke"] = ["one get_svh(mp=True) call through the real multiprocessing.Pool per check"]
 ASSUMPTIONS = list(_refine.ASSUMPTIONS) + [
     "criteria values are strings and integers >= 2 (None / True / 1 would make 'attribute missing' and 'attribute equal' indistinguishable)",
     "keep_edges=True corner cases (shrunk hyperedge becomes empty, merge of records with different metadata, directed) are not generated (DESIGN 4.5)",
 ]
-RULE = ("C19a: one run = one seeded history on one of the four containers in which filter_hypergraph(node_criteria, edge_criteria, mode, "
+RULE = ("C19b: 30% of the runs call get_svh on a hypergraph with positive integer weights, sequentially and with mp=True under a scheduled "
+        "in-process pool (seeded execution order, chunking, worker count), and compare both tables with the binomial definition.  "
+        "C19a: one run = one seeded history on one of the four containers in which filter_hypergraph(node_criteria, edge_criteria, mode, "
         "keep_edges) is one more mutating operation (criteria over the metadata vocabulary in use, attributes missing from some items, "
         "empty criteria); the reference model applies the statement literally and the history continues afterwards.  Non-trivial: >= 3 "
         "state-changing ops and >= 1 filter that removed something; distinct = event-log digests.")
@@ -24,6 +29,10 @@ TIERS = {"quick": {"runs": 4000, "wall_cap": 240, "det_seeds": 12, "min_tests": 
 
 def generate(seed, tier):
     rng = random.Random(seed)
+    if rng.random() < 0.3:
+        from . import C19b
+
+        return C19b.generate(rng, seed)
     kind = rng.choice(KINDS)
     cfg = hist.gen_config(rng, kind, tier, extra_ops=("filter",), extra_weight=5.0)
     cfg["md_density"] = rng.choice([0.3, 0.7, 0.9])
@@ -53,3 +62,13 @@ def simplify(case):
 
         return C19b.simplify(case)
     return hist.simplify_ops(case)
+
+
+def pre_batch(tier):
+    from . import C19b
+    from ..core import HarnessError
+
+    ok = C19b.real_pool_smoke()
+    if not ok:
+        raise HarnessError("real multiprocessing.Pool smoke: mp=True differs from mp=False")
+    return {"real_pool_smoke": "multiprocessing.Pool(2): get_svh(mp=True) == get_svh(mp=False) on one input"}
